@@ -47,6 +47,7 @@ def main():
             result = "MISSED" if r.returncode == 0 else ("caught:proof/correspondence-only" if nf and len(viol) == 1 else "caught:monitor")
             if r.returncode not in (0, 1) or (not viol and r.returncode != 0) or "Traceback (most recent call last)" in r.stdout:
                 result = f"check-error rc={r.returncode}"        # a crash of the check is not a detection
+                Path(f"/var/tmp/seedtest-error-{name}.log").write_text(r.stdout)
             res[name] = {"property": pid, "result": result, "signatures": sigs, "detail": detail,
                          "wall_s": round(time.time() - t0), "repo_head": sh(["git", "-C", "/repo", "rev-parse", "--short", "HEAD"]).stdout.strip()}
             print(f"{name:55s} {pid} {result:36s} {','.join(sigs)[:70]}", flush=True)
